@@ -2361,6 +2361,17 @@ def transport_conditional_counterfactual_query(
         domain_data=domain_data,
     )
 
+    # The ancestral components are made of minimised variables (Def. 2.1 drops irrelevant subscripts),
+    # so the outcomes and conditions have to be minimised too before they are looked up in them.
+    outcomes = [
+        (minimize_counterfactual(variable, target_domain_graph), value)
+        for variable, value in outcomes
+    ]
+    conditions = [
+        (minimize_counterfactual(variable, target_domain_graph), value)
+        for variable, value in conditions
+    ]
+
     # Initialize data structures
     (
         conditioned_variables,
